@@ -171,7 +171,8 @@ def scratch_copy():
     return base
 
 
-def run_check(prop, repo, out, runs=None, seed=0):
+def run_check(prop, repo, out, runs=None, seed=None):
+    seed = int(os.environ.get("MUTANT_SEED", "0")) if seed is None else seed
     env = dict(os.environ, VERIF_REPO=repo, VERIF_OUT=out, VERIF_SEED=str(seed))
     cmd = [os.path.join(VERIF, "check"), prop, "--tier", os.environ.get("MUTANT_TIER", "quick")] + (
         ["--runs", str(runs)] if runs else [])
